@@ -3,11 +3,13 @@
 // VERIF_THOROUGH adds float / 32-bit indices.
 #include <kernel/lafem/sparse_matrix_csr.hpp>
 #include <kernel/lafem/sparse_matrix_bcsr.hpp>
+#include <kernel/lafem/dense_matrix.hpp>
 using namespace FEAT;
 using namespace FEAT::LAFEM;
 template class FEAT::LAFEM::SparseMatrixCSR<double, Index>;
 template class FEAT::LAFEM::SparseMatrixBCSR<double, Index, 3, 3>;
 template class FEAT::LAFEM::SparseMatrixBCSR<double, Index, 2, 3>;
+template class FEAT::LAFEM::DenseMatrix<double, Index>;   // multiply -> Arch::ProductMatMat call sites
 #ifdef VERIF_THOROUGH
 template class FEAT::LAFEM::SparseMatrixCSR<float, std::uint32_t>;
 template class FEAT::LAFEM::SparseMatrixCSR<double, std::uint32_t>;
